@@ -2529,6 +2529,61 @@ fn freeze_lvalue(env: &mut FreezeEnv, lvalue: &Lvalue) -> NRes<Lvalue> {
     }
 }
 
+fn box_freeze_param(env: &mut FreezeEnv, lvalue: &Box<Lvalue>) -> NRes<Box<Lvalue>> {
+    Ok(Box::new(freeze_param(env, lvalue)?))
+}
+
+// Parameter lists: the names only declare, while the expressions among them (defaults, annotations,
+// pattern operators) are evaluated before any parameter is bound, so they are frozen in the
+// enclosing scope.
+fn freeze_param(env: &mut FreezeEnv, lvalue: &Lvalue) -> NRes<Lvalue> {
+    match lvalue {
+        Lvalue::Underscore | Lvalue::Literal(_) | Lvalue::Literally(_) => freeze_lvalue(env, lvalue),
+        Lvalue::IndexedIdent(s, ioses) => Ok(Lvalue::IndexedIdent(
+            s.clone(),
+            ioses
+                .iter()
+                .map(|ios| freeze_ios(env, ios))
+                .collect::<NRes<Vec<IndexOrSlice>>>()?,
+        )),
+        Lvalue::Annotation(x, e) => Ok(Lvalue::Annotation(
+            box_freeze_param(env, x)?,
+            opt_rc_freeze(env, e)?,
+        )),
+        Lvalue::WithDefault(x, d) => Ok(Lvalue::WithDefault(
+            box_freeze_param(env, x)?,
+            rc_freeze(env, d)?,
+        )),
+        Lvalue::CommaSeq(x, d) => Ok(Lvalue::CommaSeq(
+            x.iter()
+                .map(|e| box_freeze_param(env, e))
+                .collect::<NRes<Vec<Box<Lvalue>>>>()?,
+            *d,
+        )),
+        Lvalue::Splat(x) => Ok(Lvalue::Splat(box_freeze_param(env, x)?)),
+        Lvalue::Or(a, b) => Ok(Lvalue::Or(
+            box_freeze_param(env, a)?,
+            box_freeze_param(env, b)?,
+        )),
+        Lvalue::And(a, b) => Ok(Lvalue::And(
+            box_freeze_param(env, a)?,
+            box_freeze_param(env, b)?,
+        )),
+        Lvalue::Destructure(f, args) => Ok(Lvalue::Destructure(
+            box_freeze(env, f)?,
+            args.iter()
+                .map(|e| box_freeze_param(env, e))
+                .collect::<NRes<Vec<Box<Lvalue>>>>()?,
+        )),
+        Lvalue::ChainDestructure(f, args) => Ok(Lvalue::ChainDestructure(
+            box_freeze_param(env, f)?,
+            args.iter()
+                .map(|(e, v)| Ok((box_freeze(env, e)?, box_freeze_param(env, v)?)))
+                .collect::<NRes<Vec<(Box<LocExpr>, Box<Lvalue>)>>>()?,
+        )),
+    }
+}
+
 fn freeze_ios(env: &mut FreezeEnv, ios: &IndexOrSlice) -> NRes<IndexOrSlice> {
     match ios {
         IndexOrSlice::Index(i) => Ok(IndexOrSlice::Index(box_freeze_underscore_ok(env, i)?)),
@@ -2855,6 +2910,11 @@ pub fn freeze(env: &mut FreezeEnv, expr: &LocExpr) -> NRes<LocExpr> {
             }
             Expr::Lambda(params, body) => {
                 let mut env2 = env.clone();
+                // before the parameters are bound (see freeze_param)
+                let params2 = params
+                    .iter()
+                    .map(|p| box_freeze_param(&mut env2, p))
+                    .collect::<NRes<Vec<Box<Lvalue>>>>()?;
                 env2.bind(
                     params
                         .iter()
@@ -2862,7 +2922,7 @@ pub fn freeze(env: &mut FreezeEnv, expr: &LocExpr) -> NRes<LocExpr> {
                         .collect::<HashSet<String>>(),
                 );
                 Ok(Expr::Lambda(
-                    params.clone(),
+                    Rc::new(params2),
                     Rc::new(freeze(&mut env2, body)?),
                 ))
             }
